@@ -363,6 +363,52 @@ pub fn fe_reader_onebyte<B: MkBuilder>(s: &[u8]) -> FeTrace {
     FeTrace { name: "SmlReader(one-byte io::Read)", events, pos: None, finalize_n: None }
 }
 
+/// An `io::Read` that hands out chunks of varying size (cycling through `pattern`, never more than
+/// the caller asks for) and reports `Interrupted` before every `intr`-th successful read - all of
+/// which `Read`'s contract allows and none of which may change a single result.
+pub struct ChunkedRead<'a> {
+    pub s: &'a [u8],
+    pub i: usize,
+    pub pattern: &'static [usize],
+    pub k: usize,
+    pub intr: usize,
+    pub calls: usize,
+}
+impl<'a> std::io::Read for ChunkedRead<'a> {
+    fn read(&mut self, buf: &mut [u8]) -> std::io::Result<usize> {
+        self.calls += 1;
+        if self.intr > 0 && self.calls % self.intr == 0 {
+            return Err(std::io::Error::new(std::io::ErrorKind::Interrupted, "intr"));
+        }
+        if buf.is_empty() || self.i >= self.s.len() {
+            return Ok(0);
+        }
+        let want = self.pattern[self.k % self.pattern.len()];
+        self.k += 1;
+        let n = want.min(buf.len()).min(self.s.len() - self.i).max(1);
+        buf[..n].copy_from_slice(&self.s[self.i..self.i + n]);
+        self.i += n;
+        Ok(n)
+    }
+}
+pub const CHUNK_PATTERNS: [(&str, &[usize], usize); 4] = [
+    ("SmlReader(io::Read, chunks 40/64/64)", &[40, 64, 64], 0),
+    ("SmlReader(io::Read, chunks 7/64/3/100)", &[7, 64, 3, 100], 0),
+    ("SmlReader(io::Read, chunks 63/1/65)", &[63, 1, 65], 0),
+    ("SmlReader(io::Read, interrupted before every 2nd read)", &[1, 5, 64], 2),
+];
+pub fn fe_reader_chunked<B: MkBuilder>(s: &[u8], which: usize) -> FeTrace {
+    let (name, pattern, intr) = CHUNK_PATTERNS[which];
+    let mut events = vec![];
+    if let Err(p) = guarded(|| {
+        let mut r = B::builder().from_reader(ChunkedRead { s, i: 0, pattern, k: 0, intr, calls: 0 });
+        drain_reader!(r, s.len(), events);
+    }) {
+        events.push(Ev::Panic(p));
+    }
+    FeTrace { name, events, pos: None, finalize_n: None }
+}
+
 /// Which front-ends to run.
 #[derive(Clone, Copy, PartialEq, Eq, Debug)]
 pub enum FeSet {
@@ -390,6 +436,9 @@ impl<'a> BufVisitor for RunFes<'a> {
             v.push(fe_reader_iter_ref::<B>(s));
             v.push(fe_reader_cursor::<B>(s));
             v.push(fe_reader_onebyte::<B>(s));
+            for w in 0..CHUNK_PATTERNS.len() {
+                v.push(fe_reader_chunked::<B>(s, w));
+            }
         }
         v
     }
